@@ -1,6 +1,7 @@
 package main
 
 import (
+	"time"
 	"sort"
 	"os"
 	"fmt"
@@ -52,6 +53,14 @@ type Frame struct {
 	Forks map[*ssa.BasicBlock]int
 	Depth int
 	Parent *Frame
+	// guarded iteration over a slice built by conditional appends: the index register of the running loop is bound to
+	// one list entry (see guardedSliceRange)
+	listElem map[ssa.Value]listElemRef
+}
+
+type listElemRef struct {
+	obj   int
+	entry ListEntry
 }
 
 type Obligation struct {
@@ -87,6 +96,8 @@ type Engine struct {
 	eager      map[string]bool // callees inside which branch feasibility is decided eagerly
 	eagerDepth int
 	MapOrderND bool
+	feasCache  map[int]bool
+	Enumerated int
 	liveCache  map[*Obj][]*Term
 	stepsBy    map[*ssa.Function]int
 	frozen     int // objects with Epoch < frozen are write-monitored (0 = off)
@@ -570,7 +581,37 @@ func (e *Engine) feasible(pc *Term) bool {
 	if pc.IsTrue() || e.NoFeas {
 		return true
 	}
-	r := e.sol.Check(sliceRelevant(pc))
+	q := sliceRelevant(pc)
+	if r, ok := e.feasCache[q.id]; ok {
+		return r
+	}
+	if sat, ok := satByEnumeration(q, 10); ok {
+		if e.feasCache == nil {
+			e.feasCache = map[int]bool{}
+		}
+		e.feasCache[q.id] = sat
+		e.Enumerated++
+		return sat
+	}
+	if e.eagerDepth > 0 {
+		// eager regions: a fresh solver process on the cone of influence is far more predictable than the long-lived
+		// incremental session once the term table is large
+		if r, ok := e.feasCache[q.id]; ok {
+			return r
+		}
+		smt, _ := smtScript(q, false)
+		t0 := time.Now()
+		res, _, _ := solveScript(smt, nil, "z3-new", 10)
+		e.sol.Queries++
+		e.sol.Time += time.Since(t0)
+		ok := res != "unsat"
+		if e.feasCache == nil {
+			e.feasCache = map[int]bool{}
+		}
+		e.feasCache[q.id] = ok
+		return ok
+	}
+	r := e.sol.Check(q)
 	return r != "unsat"
 }
 
@@ -793,11 +834,15 @@ func (e *Engine) store(c *Ctx, p PtrV, v Value, what string) {
 // ---------- maps ----------
 
 func (e *Engine) mapLookup(c *Ctx, m MapV, k Value, elem types.Type) (Value, *Term) {
-	var res Value = zero(elem)
+	return e.mapLookupZ(c, m, k, zero(elem))
+}
+
+func (e *Engine) mapLookupZ(c *Ctx, m MapV, k Value, zeroEl Value) (Value, *Term) {
+	var res Value = zeroEl
 	ok := TFalse
 	first := true
 	for _, a := range m.Alts {
-		var r Value = zero(elem)
+		var r Value = zeroEl
 		okk := TFalse
 		if a.Obj != -1 {
 			for _, en := range c.S.Heap[a.Obj].Log {
@@ -806,7 +851,7 @@ func (e *Engine) mapLookup(c *Ctx, m MapV, k Value, elem types.Type) (Value, *Te
 					continue
 				}
 				if en.Tomb {
-					r = mergeV(hit, zero(elem), r)
+					r = mergeV(hit, zeroEl, r)
 					okk = And(Not(hit), okk)
 				} else {
 					r = mergeV(hit, en.V, r)
@@ -886,6 +931,11 @@ func (e *Engine) rangeMap(c *Ctx, m MapV) IterV {
 }
 
 func (e *Engine) nextMap(c *Ctx, itv IterV, kt, vt types.Type) Value {
+	return e.nextMapZ(c, itv, zero(kt), zero(vt))
+}
+
+// nextMapZ: symbolic-cursor iteration (used by the reflect.MapIter model): the next live entry after the cursor.
+func (e *Engine) nextMapZ(c *Ctx, itv IterV, kz, vz Value) TupleV {
 	it := c.S.Heap[itv.Obj]
 	n := len(it.Cands)
 	eff, vals := it.EffC, it.ValC
@@ -919,14 +969,14 @@ func (e *Engine) nextMap(c *Ctx, itv IterV, kt, vt types.Type) Value {
 				eff[i] = TFalse
 				continue
 			}
-			v, present := e.mapLookup(c, MapV{[]MapAlt{{TTrue, it.CandObj[i]}}}, cand.K, vt)
+			v, present := e.mapLookupZ(c, MapV{[]MapAlt{{TTrue, it.CandObj[i]}}}, cand.K, vz)
 			eff[i] = And(g, present)
 			vals[i] = v
 		}
 	}
 	ok := TFalse
-	var key Value = zero(kt)
-	var val Value = zero(vt)
+	var key Value = kz
+	var val Value = vz
 	newCur := map[int]*Term{}
 	for _, ca := range it.Cur {
 		none := ca.G
@@ -957,7 +1007,7 @@ func (e *Engine) nextMap(c *Ctx, itv IterV, kt, vt types.Type) Value {
 			cur = append(cur, CurAlt{g, i})
 		}
 	}
-	c.S.Heap[itv.Obj] = &Obj{IsIter: true, Cands: it.Cands, CandObj: it.CandObj, MapObj: it.MapObj, Cur: cur, Epoch: it.Epoch, EffC: eff, ValC: vals, VerC: ver}
+	c.S.Heap[itv.Obj] = &Obj{IsIter: true, Cands: it.Cands, CandObj: it.CandObj, MapObj: it.MapObj, Snap: it.Snap, Cur: cur, Epoch: it.Epoch, EffC: eff, ValC: vals, VerC: ver}
 	return TupleV{[]Value{BoolV{ok}, key, val}}
 }
 
@@ -1055,6 +1105,15 @@ func (e *Engine) call(caller *Frame, c *Ctx, fn *ssa.Function, args []Value, bin
 		e.Obls = append(e.Obls, Obligation{Kind: "unwind", ID: "recursion depth in " + fn.String(), Cond: c.S.PC})
 		return nil, nil
 	}
+	// eager regions are per function (not inherited by callees): branches of the named functions are pruned by a
+	// feasibility decision, everything they call runs lazily unless named as well
+	saved := e.eagerDepth
+	if e.eager[fn.String()] || e.eager[fn.Name()] || (fn.Pkg != nil && e.eager[fn.Pkg.Pkg.Name()+"."+fn.Name()]) {
+		e.eagerDepth = 1
+	} else {
+		e.eagerDepth = 0
+	}
+	defer func() { e.eagerDepth = saved }()
 	fr := &Frame{Fn: fn, Forks: map[*ssa.BasicBlock]int{}, Depth: depth, Parent: caller}
 	nc := &Ctx{S: c.S, Regs: map[ssa.Value]Value{}}
 	for i, p := range fn.Params {
@@ -1140,6 +1199,37 @@ func (e *Engine) execFrom(fr *Frame, c *Ctx, b *ssa.BasicBlock, stops []*ssa.Bas
 		if fromStart {
 			nphi = start
 			start = -1
+		}
+		if !fromStart && nphi >= 1 && len(b.Instrs) == nphi+3 {
+			if done, handled, esc := e.guardedSliceRange(fr, c, b, stops, nphi); handled {
+				for blk, x := range esc {
+					if inStops(stops, blk) {
+						out = e.addArrival(out, blk, x)
+					}
+				}
+				exit := b.Succs[1]
+				var at arrivals
+				if done != nil {
+					done.Prev = b
+					e.evalPhis(done, exit)
+					done.Prev = nil
+					at = e.addArrival(at, exit, done)
+				}
+				if brk := esc[exit]; brk != nil && !inStops(stops, exit) {
+					at = e.addArrival(at, exit, brk)
+				}
+				if at == nil || at[exit] == nil {
+					return out
+				}
+				c = at[exit]
+				c.Prev = nil
+				b = exit
+				if inStops(stops, b) {
+					return e.addArrival(out, b, c)
+				}
+				start = e.firstNonPhi(b)
+				continue
+			}
 		}
 		if nx, ok := b.Instrs[nphi].(*ssa.Next); ok && !nx.IsString {
 			// guarded iteration over a map: visit candidates in log order, each under its effectiveness guard
@@ -1399,6 +1489,14 @@ func (e *Engine) step(fr *Frame, c *Ctx, in ssa.Instruction) bool {
 	case *ssa.Field:
 		c.Regs[x] = e.get(c, x.X).(StructV).F[x.Field]
 	case *ssa.IndexAddr:
+		if ref, ok := fr.listElem[x.Index]; ok {
+			if sv, ok := e.get(c, x.X).(SliceV); ok && len(sv.Alts) == 1 && sv.Alts[0].Obj == ref.obj {
+				// the element of the current guarded iteration (read through a private cell)
+				id := e.newObj(c, &Obj{Val: ArrayV{[]Value{ref.entry.V}}})
+				c.Regs[x] = PtrV{[]PtrAlt{{G: TTrue, Obj: id, Path: []int{0}}}}
+				break
+			}
+		}
 		idx := e.get(c, x.Index).(IntV).T
 		switch base := e.get(c, x.X).(type) {
 		case PtrV: // pointer to array
@@ -1611,6 +1709,7 @@ func cpHi(t *Term) uint64 {
 }
 
 func (e *Engine) slice(c *Ctx, x *ssa.Slice) Value {
+	curSliceFn = x.Parent().String()
 	base := e.get(c, x.X)
 	getI := func(v ssa.Value, def *Term) *Term {
 		if v == nil {
@@ -1631,7 +1730,7 @@ func (e *Engine) slice(c *Ctx, x *ssa.Slice) Value {
 		lo := getI(x.Low, BV(64, 0))
 		hi := getI(x.High, BV(64, uint64(len(arr.E))))
 		if !lo.IsConst() {
-			unsup("symbolic slice low bound")
+			unsup("symbolic slice low bound in %s", curSliceFn)
 		}
 		return SliceV{[]SliceAlt{{TTrue, a.Obj, int(lo.val), Sub(hi, lo), len(arr.E) - int(lo.val)}}}
 	case SliceV:
@@ -1640,7 +1739,7 @@ func (e *Engine) slice(c *Ctx, x *ssa.Slice) Value {
 			lo := getI(x.Low, BV(64, 0))
 			hi := getI(x.High, a.Len)
 			if !lo.IsConst() {
-				unsup("symbolic slice low bound")
+				unsup("symbolic slice low bound in %s", curSliceFn)
 			}
 			if a.Obj == -1 {
 				alts = append(alts, a)
@@ -1672,7 +1771,14 @@ func (e *Engine) slice(c *Ctx, x *ssa.Slice) Value {
 					if l > len(f.B) {
 						l = len(f.B)
 					}
-					return StrV{Len: Sub(f.Len, lo), B: f.B[l:]}
+					res := StrV{Len: Sub(f.Len, lo), B: f.B[l:]}
+					if f.Len.IsConst() && f.Len.val < lo.val {
+						return StrC("") // out of range: the panic is raised by the caller's bounds check; keep structure
+					}
+					if cs, ok := res.Concrete(); ok {
+						return StrC(cs)
+					}
+					return res
 				}
 				return cut(b)
 			}
@@ -1803,6 +1909,14 @@ func (e *Engine) binop(c *Ctx, x *ssa.BinOp) Value {
 		switch x.Op {
 		case token.ADD:
 			return strConcat(av, bv)
+		case token.LSS:
+			return BoolV{strLess(av, bv)}
+		case token.GTR:
+			return BoolV{strLess(bv, av)}
+		case token.LEQ:
+			return BoolV{Not(strLess(bv, av))}
+		case token.GEQ:
+			return BoolV{Not(strLess(av, bv))}
 		}
 		unsup("string binop %v", x.Op)
 	case BoolV:
@@ -2262,3 +2376,160 @@ func (e *Engine) distribute(h func(*Engine, *Frame, *Ctx, []Value, *ssa.CallComm
 	}
 	return nil, false, false
 }
+
+// guardedSliceRange: `for _, v := range s` over a slice that is a guarded list (built by conditional appends) is run
+// entry by entry, each body execution under the entry's presence guard with v bound to that entry's own value, instead
+// of positionally (which would ite-merge all entries that may sit at a position). Applies only when the loop reads
+// the elements (the index is used for element loads, comparisons and arithmetic, never for an element store).
+// Returns (context after the loop at the header's exit edge, handled, arrivals elsewhere).
+func (e *Engine) guardedSliceRange(fr *Frame, c *Ctx, b *ssa.BasicBlock, stops []*ssa.BasicBlock, nphi int) (*Ctx, bool, arrivals) {
+	if len(b.Succs) != 2 {
+		return nil, false, nil
+	}
+	inc, ok := b.Instrs[nphi].(*ssa.BinOp)
+	if !ok || inc.Op != token.ADD {
+		return nil, false, nil
+	}
+	phi, ok := inc.X.(*ssa.Phi)
+	if !ok || phi.Comment != "rangeindex" || phi.Block() != b {
+		return nil, false, nil
+	}
+	lss, ok := b.Instrs[nphi+1].(*ssa.BinOp)
+	if !ok || lss.Op != token.LSS || lss.X != inc {
+		return nil, false, nil
+	}
+	if _, ok := b.Instrs[nphi+2].(*ssa.If); !ok {
+		return nil, false, nil
+	}
+	lenCall, ok := lss.Y.(*ssa.Call)
+	if !ok {
+		return nil, false, nil
+	}
+	if bi, ok := lenCall.Call.Value.(*ssa.Builtin); !ok || bi.Name() != "len" {
+		return nil, false, nil
+	}
+	sliceReg := lenCall.Call.Args[0]
+	sv, ok := c.Regs[sliceReg].(SliceV)
+	if !ok || len(sv.Alts) != 1 || sv.Alts[0].Obj < 0 || sv.Alts[0].Off != 0 {
+		return nil, false, nil
+	}
+	o := c.S.Heap[sv.Alts[0].Obj]
+	if o == nil || !o.HasList || sv.Alts[0].Len != listCount(o.List) {
+		return nil, false, nil
+	}
+	symbolic := false
+	for _, en := range o.List {
+		if !en.G.IsTrue() {
+			symbolic = true
+		}
+	}
+	if !symbolic {
+		return nil, false, nil
+	}
+	// the index may only be used to read elements of this very slice
+	for _, ref := range *inc.Referrers() {
+		switch u := ref.(type) {
+		case *ssa.Phi, *ssa.BinOp, *ssa.Convert, *ssa.MakeInterface, *ssa.DebugRef:
+		case *ssa.IndexAddr:
+			if u.X != sliceReg {
+				return nil, false, nil
+			}
+			for _, r2 := range *u.Referrers() {
+				if uo, ok := r2.(*ssa.UnOp); !ok || uo.Op != token.MUL {
+					if _, dbg := r2.(*ssa.DebugRef); !dbg {
+						return nil, false, nil
+					}
+				}
+			}
+		default:
+			return nil, false, nil
+		}
+	}
+	body, exit := b.Succs[0], b.Succs[1]
+	inner := append(append([]*ssa.BasicBlock(nil), stops...), b)
+	if !inStops(inner, exit) {
+		inner = append(inner, exit)
+	}
+	if fr.listElem == nil {
+		fr.listElem = map[ssa.Value]listElemRef{}
+	}
+	var esc arrivals
+	var pos *Term = BV(64, 0)
+	for _, en := range o.List {
+		g := en.G
+		if g.IsFalse() || And(c.S.PC, g).IsFalse() {
+			continue
+		}
+		e.Forks++
+		cA := c.fork(g)
+		cA.Regs[phi] = IntV{Sub(pos, BV(64, 1))}
+		cA.Regs[inc] = IntV{pos}
+		cA.Regs[lss] = BoolV{TTrue}
+		cA.Prev = b
+		prev, had := fr.listElem[inc]
+		fr.listElem[inc] = listElemRef{sv.Alts[0].Obj, en}
+		arr := e.execFrom(fr, cA, body, inner, -1)
+		if had {
+			fr.listElem[inc] = prev
+		} else {
+			delete(fr.listElem, inc)
+		}
+		rA := arr[b]
+		for blk, x := range arr {
+			if blk != b {
+				esc = e.addArrival(esc, blk, x)
+			}
+		}
+		pos = Add(pos, Ite(g, BV(64, 1), BV(64, 0)))
+		if g.IsTrue() {
+			if rA == nil {
+				return nil, true, esc
+			}
+			c = rA
+			continue
+		}
+		cB := c.fork(Not(g))
+		if rA != nil {
+			c = e.mergeCtx(g, rA, cB, nil)
+		} else {
+			c = cB
+		}
+		c.Prev = nil
+	}
+	c.Regs[phi] = IntV{Sub(pos, BV(64, 1))}
+	c.Regs[inc] = IntV{pos}
+	c.Regs[lss] = BoolV{TFalse}
+	return c, true, esc
+}
+
+// strLess: a < b (bytewise lexicographic), distributing over the alternatives of lazily merged strings
+func strLess(a, b StrV) *Term {
+	var la, lb []strAlt
+	strAlts(a, TTrue, &la)
+	strAlts(b, TTrue, &lb)
+	if len(la) == 1 && len(lb) == 1 {
+		return leafLess(la[0].S, lb[0].S)
+	}
+	var disj []*Term
+	for _, x := range la {
+		for _, y := range lb {
+			g := And(x.G, y.G)
+			if g.IsFalse() {
+				continue
+			}
+			disj = append(disj, And(g, leafLess(x.S, y.S)))
+		}
+	}
+	return Or(disj...)
+}
+
+func leafLess(a, b StrV) *Term {
+	if ca, ok := a.Concrete(); ok {
+		if cb, ok := b.Concrete(); ok {
+			return BoolC(ca < cb)
+		}
+	}
+	return lexLess(fl(a), fl(b))
+}
+
+var curSliceFn string
